@@ -25,6 +25,7 @@ func runC08(c *Ctx) {
 	borrow(c, "O7", "C13", "O5", "Commit does not call Discard", "undoing already committed allocations fires the deallocate handlers: the queue and its ancestors are under-counted while the pods get bound")
 	borrow(c, "O9", "C13", "O8", "plugin handlers fire after the job and node were updated", "the queue counters are charged with the task's accepted resources, which the node update computes")
 	borrow(c, "O11", "C07", "O7", "createQueueResourceAttrs", "the limit and quota enforced for a resource are the ones configured for that resource")
+	borrow(c, "O12", "C01", "O9", "getPodResourceRequest", "the limit and quota checks and every queue's usage are computed from the pod request: it must be what Kubernetes reserves for the pod (max(containers, init) + overhead)")
 	borrow(c, "O8", "C03", "O5", "only active-allocated pods are eviction candidates", "evicting a pod that is already releasing subtracts resources from the queue that were never added")
 
 	p, fx := c.P, c.Fx
@@ -55,6 +56,27 @@ func runC08(c *Ctx) {
 			c.Check(stored || len(h.Chain) > 0, "O10", "PROV", funcKey(sp)+": the computed preemptibility is stored in the PodGroupInfo", instrPos(h.In), "podGroupInfo.Preemptibility = …", "the computed preemptibility is not stored in the session's pod group")
 		}
 		c.Floor("O10", "PROV preemptibility computations", calc, 1)
+	}
+	// ---- O13: the running sum starts from EVERY allocated pod. At session open the queues' Allocated /
+	// AllocatedNotPreemptible are accumulated from the pods that hold resources: inside the loops over the allocated
+	// tasks nothing skips a task (not its node's condition, not its age): a pod that keeps running on a cordoned or
+	// NotReady node still consumes its queue's limit and quota.
+	if up := c.Anchor("O13", pkgProportion, "proportionPlugin", "updateQueuesCurrentResourceUsage"); up != nil {
+		acc := p.Func(pkgProportion, "proportionPlugin", "updateQueuesResourceUsageForAllocatedJob")
+		n := 0
+		for _, h := range p.deepFind(up, isCallToFn(acc), 2) {
+			in := h.In
+			if loopHeaderOf(in.Block()) == nil {
+				continue
+			}
+			n++
+			ok, path := everyIterationPasses(in, func(x ssa.Instruction) bool { return x == in }, nil)
+			c.Check(ok, "O13", "MPT", funcKey(in.Parent())+": every allocated task is added to its queues' usage", instrPos(in), "no iteration of the task loop skips the accumulation",
+				"an allocated pod can be left out of its queue's (and every ancestor's) Allocated / AllocatedNotPreemptible at session open ("+pathStr(path)+"): the limit and non-preemptible-quota checks then admit more than configured")
+			d, okStatus := hasFact(fx.FactsAt(in), func(f Fact) bool { return f.Pol && isCallNamed(f.T, "AllocatedStatus") })
+			c.Check(okStatus, "O13", "DOM", funcKey(in.Parent())+": usage is accumulated for the allocated statuses", instrPos(in), trunc(d, 100), "the accumulation of queue usage is not keyed on pod_status.AllocatedStatus")
+		}
+		c.Floor("O13", "MPT usage accumulations", n, 1)
 	}
 	isSchedFact := func(callName string) func(f Fact) bool {
 		return func(f Fact) bool {
